@@ -3,6 +3,7 @@ package measure_test
 import (
 	"context"
 	"fmt"
+	"github.com/apache/skywalking-banyandb/api/data"
 	"math"
 	"sort"
 	"strings"
@@ -192,6 +193,39 @@ type c10Cluster struct {
 	tr    *modelv1.TimeRange
 	nodes []c10Node
 	err   error
+	// vec: the data nodes answer with the columnar executor and a raw frame body (flag on), as
+	// banyand/query.measureInternalQueryProcessor does; batch is their batch size
+	vec   bool
+	batch int
+}
+
+// c10NodeFrame runs the node-side vectorized plan and returns the raw frame body the data node would send.
+func c10NodeFrame(req *measurev1.QueryRequest, ec *c10EC, emitPartial bool, batch int) (body []byte, err error) {
+	defer func() {
+		if r := recover(); r != nil {
+			err = fmt.Errorf("panic: %v", r)
+		}
+	}()
+	md := c10Schema()
+	s, err := measure.BuildSchema(md, nil)
+	if err != nil {
+		return nil, err
+	}
+	cfg := vmeasure.DefaultConfig()
+	cfg.BatchSize = batch
+	it, _, handled, err := vecplan.Dispatch(context.Background(), req, md.Metadata, md, s, ec, cfg, emitPartial, false)
+	if err != nil {
+		return nil, err
+	}
+	if !handled {
+		return nil, fmt.Errorf("dispatch declined the node request with the flag on")
+	}
+	defer it.Close()
+	emitter, ok := it.(vmeasure.FrameEmitter)
+	if !ok {
+		return nil, fmt.Errorf("node iterator %T cannot emit a frame", it)
+	}
+	return emitter.EmitFrame(context.Background())
 }
 
 type c10Future struct{ m bus.Message }
@@ -207,6 +241,15 @@ func (c *c10Cluster) Broadcast(_ time.Duration, _ bus.Topic, message bus.Message
 	ff := make([]bus.Future, 0, len(c.nodes))
 	for i, n := range c.nodes {
 		req := proto.Clone(ir.GetRequest()).(*measurev1.QueryRequest)
+		if c.vec {
+			body, ferr := c10NodeFrame(req, n.ec, ir.GetAggReturnPartial(), c.batch)
+			if ferr != nil {
+				c.err = ferr
+				return nil, ferr
+			}
+			ff = append(ff, c10Future{m: bus.NewMessageWithNode(bus.MessageID(i+1), n.name, &measurev1.InternalQueryResponse{RawFrameBody: body})})
+			continue
+		}
 		dps, err := c10RunLocal(req, n.ec, ir.GetAggReturnPartial())
 		if err != nil {
 			c.err = err
@@ -236,6 +279,35 @@ func c10RunDistributed(req *measurev1.QueryRequest, nodes []c10Node) ([]*measure
 	}
 	defer it.Close()
 	var out []*measurev1.DataPoint
+	for it.Next() {
+		for _, c := range it.Current() {
+			out = append(out, c.GetDataPoint())
+		}
+	}
+	return out, nil
+}
+
+// c10RunVecDistributed: coordinator and data nodes with the flag on - the vectorized distributed plan over raw frames.
+func c10RunVecDistributed(req *measurev1.QueryRequest, nodes []c10Node, batch int) (out []*measurev1.DataPoint, err error) {
+	defer func() {
+		if r := recover(); r != nil {
+			err = fmt.Errorf("panic: %v", r)
+		}
+	}()
+	data.SetMeasureWireModeRaw(true)
+	defer data.SetMeasureWireModeRaw(false)
+	cfg := vmeasure.DefaultConfig()
+	cfg.BatchSize = batch
+	plan, err := vecplan.AnalyzeDistributed(req, []*databasev1.Measure{c10Schema()}, [][]*databasev1.IndexRule{nil}, cfg)
+	if err != nil {
+		return nil, fmt.Errorf("vectorized distributed analyze: %w", err)
+	}
+	ctx := executor.WithDistributedExecutionContext(context.Background(), &c10Cluster{tr: req.TimeRange, nodes: nodes, vec: true, batch: batch})
+	it, err := plan.Execute(ctx)
+	if err != nil {
+		return nil, fmt.Errorf("vectorized distributed execute: %w", err)
+	}
+	defer it.Close()
 	for it.Next() {
 		for _, c := range it.Current() {
 			out = append(out, c.GetDataPoint())
@@ -558,6 +630,18 @@ func TestVerifC10Plans(t *testing.T) {
 				return err
 			}
 			if err := c.checkAgainst(dist, ref, fmt.Sprintf("distributed plan over %d shards / %d responders", c.Shards, len(nodes))); err != nil {
+				return err
+			}
+			// the same partition answered by the vectorized distributed plan (flag on everywhere)
+			vdistDP, err := c10RunVecDistributed(proto.Clone(req).(*measurev1.QueryRequest), nodes, c.vecBatch())
+			if err != nil {
+				return verifkit.Failf("vectorized distributed plan failed: %v", err)
+			}
+			vdist, err := c10Render(vdistDP, c.GroupBy)
+			if err != nil {
+				return err
+			}
+			if err := c.checkAgainst(vdist, ref, fmt.Sprintf("vectorized distributed plan over %d shards / %d responders", c.Shards, len(nodes))); err != nil {
 				return err
 			}
 			// a group spanning >= 2 shards
